@@ -223,7 +223,13 @@ class Scenario:
                 checkpoints.append(5000 + 300 + SETTLE_MS)
                 newer = Svc(S1.type, S1.name, S1.server, S1.port + 1, S1.text, S1.v4, S1.v6)
                 t_op = 5000 + 300 + SETTLE_MS + 200
-                ops.append((t_op, lambda: w.spawn(op_reregister(A, "S1", newer))))
+                if v.get("readdress"):
+                    # ... or from a new description with another address of the same host name (the withdrawal must have taken
+                    # the old address record with it)
+                    newer = Svc(S1.type, S1.name, S1.server, S1.port, S1.text, [bytes([10, 0, 0, 42])], S1.v6)
+                    ops.append((t_op, lambda: w.spawn(op_register(A, "S1", newer))))
+                else:
+                    ops.append((t_op, lambda: w.spawn(op_reregister(A, "S1", newer))))
                 checkpoints.append(t_op + 800 + SETTLE_MS)
             elif self.name == "stale-cache":
                 # the browsing host has been on the link all along and heard the announcements; its browser only starts when
@@ -362,6 +368,7 @@ def plan(tier: str) -> List[Tuple[str, Dict[str, Any], int]]:
             ("leave", {"browse_at": 5000, "after": 130, "how": "close", "late": True, "socks": "dual"}, 2),
             ("idle", {"browse_at": 0}, 1), ("flap", {"browse_at": 0}, 1),
             ("reregister", {"browse_at": 0}, 1), ("reregister", {"browse_at": 30_000, "late": True}, 1),
+            ("reregister", {"browse_at": 0, "readdress": True}, 2),
             ("update-queued", {"browse_at": 1850, "update_at": 2000, "qm": True}, 1),
             ("update-queued", {"browse_at": 1850, "update_at": 2000, "qm": True, "late": True}, 2),
             ("update-queued", {"browse_at": 1850, "update_at": 2600, "qm": True, "late": True}, 1),
@@ -394,7 +401,7 @@ def run(tier: str, seed: int) -> Tuple[Stats, str, List[str], Dict[str, Any]]:
         label = f"{name}/{variant['browse_at']}{'/late' if variant.get('late') else ''}{'/multi' if variant.get('multi') else ''}{'/' + variant['socks'] if variant.get('socks') else ''}{'/' + variant['how'] + '+' + str(variant['after']) if name == 'leave' else ''}{'/qm' if variant.get('qm') else ''}{'/long' if variant.get('long') else ''}" + (
             f"/unreg+{variant['unregister_after']}" if name == "churn" else "") + "".join(
             f"/{k}={variant[k]}" if not isinstance(variant[k], bool) else f"/{k}" for k in ("update_at", "cased", "addr", "new_object")
-            if k in variant and name == "update-queued")
+            if k in variant and name == "update-queued") + ("/readdress" if variant.get("readdress") else "")
         done = explore_deviations(sc.run, bound, stats, label,
                                   max_execs=None if tier == "quick" else 1_500_000)
         completed[label] = done
